@@ -22,6 +22,7 @@
 #include <sanitizer/allocator_interface.h>
 #include "../core/prng.h"
 #include "../core/json.hpp"
+#include "../core/mutate.hpp"
 
 extern "C" {
 #include <eav.h>
@@ -578,7 +579,7 @@ static Op gen_line(sim_rng &r, unsigned longw) {
     else if (c < 14) op.s = "   " + string(sim_below(&r, 3), '\t');
     else if (c < 20) op.s = "#" + rnd_ascii(r, sim_below(&r, 30));
     else if (c < 23) op.s = " #" + rnd_ascii(r, sim_below(&r, 10));
-    else if (c < 55) op.s = g_addr[sim_below(&r, g_addr.size())];
+    else if (c < 55) { op.s = g_addr[sim_below(&r, g_addr.size())]; if (sim_below(&r, 4) == 0) op.s = mut::mutate(&r, op.s); }
     else if (c < 62) op.s = " " + g_addr[sim_below(&r, g_addr.size())];
     else if (c < 69) op.s = g_addr[sim_below(&r, g_addr.size())] + (sim_below(&r, 2) ? " " : "\t");
     else if (c < 72) op.s = " " + g_addr[sim_below(&r, g_addr.size())] + " ";
